@@ -7,7 +7,7 @@ open ExecTask
 
 def resSx : Res → SExp
   | .ok => .atom "ok" | .none => .atom "none" | .dead => .atom "dead" | .loopexit => .atom "loopexit"
-  | .notask => .atom "notask" | .norpc => .atom "norpc" | .nonhook => .atom "nonhook"
+  | .ignored => .atom "ignored" | .notask => .atom "notask" | .norpc => .atom "norpc" | .nonhook => .atom "nonhook"
   | .resp st err => .list [.atom "r", .atom st.name, SExp.ofBool err]
   | .hresp err => .list [.atom "h", SExp.ofBool err]
   | .crash s => .list [.atom "crash", .atom s.name]
@@ -26,7 +26,7 @@ def obsSx (o : Obs) : SExp :=
 def parseRes : SExp → Option Res
   | .atom "ok" => some .ok | .atom "none" => some .none | .atom "dead" => some .dead
   | .atom "loopexit" => some .loopexit | .atom "notask" => some .notask | .atom "norpc" => some .norpc
-  | .atom "nonhook" => some .nonhook | .atom "hang" => some .hang
+  | .atom "nonhook" => some .nonhook | .atom "hang" => some .hang | .atom "ignored" => some .ignored
   | .list [.atom "r", .atom st, e] => do pure (.resp (← Dev.parse? st) (← e.bool?))
   | .list [.atom "h", e] => do pure (.hresp (← e.bool?))
   | .list [.atom "crash", .atom s] => do pure (.crash (← Site.parse? s))
